@@ -8,13 +8,18 @@
   `display_roundtrip_partial` is stated on tokens; `display_roundtrip_text` is the character-level statement: the
   *characters* `Display` writes (`Disp.showExpr`, compared with the real `to_string()` on every correspondence case)
   lex to exactly `dispToks` (`text_lexes_to_printed_tokens`, Lemmas/LexCompose + LexShow: the lexer is compositional
-  on printed text) and so parse back to the tree.  What remains hypothesis:
-   * float leaves: `LitOK` (the token converts back) and `LitText` (the text is one token) — the library's
-     shortest-digits printing and its parsing are not modelled; integer, decimal (`dec_leaf_ok`, Lemmas/DecText),
-     string, boolean and none leaves are proved;
-   * names (`NameOK`): a letter, then identifier characters, not a keyword, and after the literal prefixes `i`, `f`, `d`
-     no digit — what the lexer's IDENT rule produces, minus the corner `i5x` / `f1x` (identifiers only by longest match
-     against a numeric literal; not covered).
+  on printed text) and so parse back to the tree.
+
+  `parsed_expression_roundtrip` is the property as stated: for EVERY text the parser accepts, the text `Display` writes
+  for the tree it returned parses back to that tree (Lemmas/ParsedPrintable: what the lexer and the grammar actions
+  produce is printable — identifiers are well-formed names, including the literal-prefix corner `i5x` / `f5e` / `d1_a`,
+  which are identifiers only by longest match against a numeric literal; integers are in range; decimals are in normal
+  form; positional indices fit `u64`; map literals are collected maps).  What remains hypothesis:
+   * float leaves: `LitOK` (the token converts back) and `LitText` (the text is one token) for the float leaves of the
+     tree — the library's shortest-digits printing and its parsing are not modelled (`FloatText`); integer, decimal
+     (`dec_leaf_ok`, Lemmas/DecText), string, boolean and none leaves are proved;
+   * decimal literals beyond 96 bits / 28 fraction digits, which `Decimal::from_str` rounds: that the library returns a
+     decimal in normal form (`PP.OracleDecOK`).
   Planning this proof exposed a genuine defect (`f .5` printed `(f.5)`, a float literal): repaired by fix commit 159fa22,
   and the model's `needsParens` now has the same clause, without which `lexShow_index` does not go through.
   Non-finite floats are outside the hypothesis and really fail (`nonfinite_float_is_not_reparsed`, known finding).
@@ -22,6 +27,7 @@
 import RevalModel.Lemmas.DisplayRT
 import RevalModel.Lemmas.LexShow
 import RevalModel.Props.C07
+import RevalModel.Lemmas.ParsedPrintable
 
 namespace Reval.C16
 open Reval.G Reval.Disp
@@ -108,6 +114,60 @@ theorem function_names_roundtrip (op : UnOp) (h1 : op ≠ .neg) (h2 : op ≠ .no
 /-- binary operator nodes are printed with a token the table maps back to the same node, at its own level -/
 theorem operator_tokens_roundtrip (op : BinOp) (h : op ≠ .contains) :
     binOpAt (binLvl op) (binTok op) = some (Expr.bin op) := binOpAt_binTok op h
+
+/-! ### the property as stated: every parsed expression -/
+
+/-- the float library's contract, for the floats in `P` (the finite ones; see `nonfinite_float_is_not_reparsed`): the text
+    it prints converts back to the same float, and is one token in front of a closing bracket, space or comma -/
+def FloatText (o : Oracle) (sf : F64 → Str) (P : F64 → Prop) : Prop :=
+  ∀ f, P f → LitOK o sf (.float f) ∧ LexC.LitText sf (.float f)
+
+/-- **whatever the parser returns is printable**: for every text, if `Expr::parse` accepts it, the tree it returns
+    satisfies the hypotheses of the round-trip theorems (floats: those of its leaves must be in `P`) -/
+theorem parsed_is_printable (o : Oracle) (sf : F64 → Str) (P : F64 → Prop) (hdec : PP.OracleDecOK o) (hP : FloatText o sf P)
+    (text : Str) (e : Expr) (h : parseExprText o text = .ok e []) (hf : PP.FloatLeaves P e) :
+    Printable o sf e ∧ LexC.TextOK sf e := by
+  unfold parseExprText at h
+  split at h
+  · cases h
+  · rename_i ts hlex
+    have hR : R o 0 e ts := (C07.parseToks_iff_derived o e ts).1 h
+    exact PP.parsed_good hdec hP hR (PP.lex_tokOK text ts hlex) hf
+
+/-- **C16 as stated** — printing a parsed expression gives text that parses back to the same expression: for every text
+    `t` that `Expr::parse` accepts with tree `e`, `Expr::parse(e.to_string()) = e` (model of the whole pipeline:
+    characters → tokens → tree → characters → tokens → tree; any size, no fuel in the statement) -/
+theorem parsed_expression_roundtrip (o : Oracle) (sf : F64 → Str) (P : F64 → Prop) (hdec : PP.OracleDecOK o) (hP : FloatText o sf P)
+    (text : Str) (e : Expr) (h : parseExprText o text = .ok e []) (hf : PP.FloatLeaves P e) :
+    parseExprText o (showExpr sf e) = .ok e [] := by
+  obtain ⟨hp, ht⟩ := parsed_is_printable o sf P hdec hP text e h hf
+  exact display_roundtrip_text o sf e hp ht
+
+/-- … and printing is idempotent from there on: the re-parsed tree prints the same text -/
+theorem parsed_expression_roundtrip_twice (o : Oracle) (sf : F64 → Str) (P : F64 → Prop) (hdec : PP.OracleDecOK o) (hP : FloatText o sf P)
+    (text : Str) (e e' : Expr) (h : parseExprText o text = .ok e []) (hf : PP.FloatLeaves P e)
+    (h' : parseExprText o (showExpr sf e) = .ok e' []) : showExpr sf e' = showExpr sf e := by
+  rw [parsed_expression_roundtrip o sf P hdec hP text e h hf] at h'
+  cases h'; rfl
+
+/-- the literal-prefix corner: `i5x`, `f5e` and `d1_a` are identifiers (longest match against the numeric literal), and
+    well-formed names for the printer, in front of any follower -/
+theorem literal_prefix_identifiers_are_names :
+    LexC.NameOK ['i', '5', 'x'] ∧ LexC.NameOK ['f', '5', 'e'] ∧ LexC.NameOK ['d', '1', '_', 'a'] := by
+  refine ⟨?_, ?_, ?_⟩
+  · exact PP.lex_tokOK ['i', '5', 'x'] [.ident ['i', '5', 'x']] (by decide +kernel) (.ident ['i', '5', 'x']) (by simp)
+  · exact PP.lex_tokOK ['f', '5', 'e', '+'] [.ident ['f', '5', 'e'], .p ['+']] (by decide +kernel) (.ident ['f', '5', 'e']) (by simp)
+  · exact PP.lex_tokOK ['d', '1', '_', 'a'] [.ident ['d', '1', '_', 'a']] (by decide +kernel) (.ident ['d', '1', '_', 'a']) (by simp)
+
+/-- non-vacuity: a text without float leaves — no hypothesis about floats is used (`P` empty), and the empty oracle
+    satisfies the decimal assumption trivially; the text mixes the literal-prefix corner, a duplicate map key, an `in`,
+    redundant parentheses and a radix literal -/
+example : parseExprText Oracle.empty (showExpr (fun _ => []) (.bin .add (.ref ['i', '5', 'x']) (.lit (.int 255)))) =
+    .ok (.bin .add (.ref ['i', '5', 'x']) (.lit (.int 255))) [] := by
+  have hdec : PP.OracleDecOK Oracle.empty := by intro b v h; simp [Oracle.empty] at h
+  have hP : FloatText Oracle.empty (fun _ => []) (fun _ => False) := fun f h => h.elim
+  refine parsed_expression_roundtrip Oracle.empty (fun _ => []) (fun _ => False) hdec hP ['(', '(', 'i', '5', 'x', ')', ')', ' ', '+', ' ', '0', 'x', 'f', 'f'] _ (by with_unfolding_all rfl) ?_
+  simp [PP.FloatLeaves]
 
 /-- **known finding**: `f64::INFINITY` prints as `finf`, which is an identifier, not a float literal -/
 theorem nonfinite_float_is_not_reparsed :
